@@ -521,14 +521,26 @@ class Check(core.CheckBase):  # pylint: disable=too-many-public-methods
                 found.append(self.violation('timestamp|sentinel-compose|size=%d' % item_size,
                                             'the "forever" sentinel cannot be composed with %d bytes: %r' % (item_size, e),
                                             case))
-            try:
-                parser = self.parse.ParserBinary(want)
-                parser.parse_timestamp('t', item_size=item_size)
-                if parser['t'] is not None:
-                    found.append(self.violation('timestamp|sentinel-parse|size=%d' % item_size,
-                                                'all-ones parsed as %r' % parser['t'], case))
-            except Exception as e:  # pylint: disable=broad-except
-                found.append(self.violation('timestamp|sentinel-parse|size=%d' % item_size, repr(e), case))
+            for milliseconds in (False, True):
+                for order in (None, ) + tuple(ORDERS):
+                    try:
+                        parser = self.parse.ParserBinary(want) if order is None else \
+                            self.parse.ParserBinary(want, byte_order=self.parse.ByteOrder[order])
+                        parser.parse_timestamp('t', milliseconds=milliseconds, item_size=item_size)
+                        self.stats['sentinel_parses'] += 1
+                        if parser['t'] is not None:
+                            found.append(self.violation('timestamp|sentinel-parse|size=%d' % item_size,
+                                                        'all-ones (milliseconds=%s) parsed as %r' % (milliseconds, parser['t']), case))
+                    except Exception as e:  # pylint: disable=broad-except
+                        found.append(self.violation('timestamp|sentinel-parse|size=%d' % item_size, repr(e), case))
+                try:
+                    composer = self.parse.ComposerBinary()
+                    composer.compose_timestamp(None, milliseconds=milliseconds, item_size=item_size)
+                    if bytes(composer.composed) != want:
+                        found.append(self.violation('timestamp|sentinel-compose|size=%d' % item_size,
+                                                    'None (milliseconds=%s) composed as %s' % (milliseconds, bytes(composer.composed).hex()), case))
+                except Exception as e:  # pylint: disable=broad-except
+                    found.append(self.violation('timestamp|sentinel-compose|size=%d' % item_size, repr(e), case))
         return found
 
     def floors(self):
